@@ -31,191 +31,232 @@ func c17Check(r *vbase.Result, bf int, pos []hotstuff.ID) {
 	for _, id := range pos {
 		trees[id] = tree.NewSimple(id, bf, append([]hotstuff.ID(nil), pos...))
 	}
+	pass := 0
 	fail := func(rule, msg string) {
+		if pass > 1 {
+			rule += "-after-queries"
+		}
 		r.Violate(vbase.Sig("tree-"+rule), fmt.Sprintf("n=%d bf=%d positions=%v: %s", n, bf, pos, msg), map[string]any{"bf": bf, "pos": pos})
 	}
-	// roots
-	var roots []hotstuff.ID
-	parentOf := map[hotstuff.ID]hotstuff.ID{}
-	for _, id := range pos {
-		par, ok := trees[id].Parent()
-		if !ok {
-			roots = append(roots, id)
-		} else {
-			parentOf[id] = par
-			if par == id {
-				fail("self-parent", fmt.Sprintf("replica %d is its own parent", id))
-				return
-			}
-			if _, known := trees[par]; !known {
-				fail("unknown-parent", fmt.Sprintf("replica %d has parent %d which is not a replica", id, par))
-				return
+	// The whole consistency check runs twice on the same Tree instances, with a storm of every query in a
+	// PRNG-chosen order in between: the views must fit together whenever they are consulted, not only the first time
+	// (a query that re-seats the replica's own table leaves the first pass clean).
+	var once func() bool
+	once = func() bool {
+		pass++
+		// roots
+		var roots []hotstuff.ID
+		parentOf := map[hotstuff.ID]hotstuff.ID{}
+		for _, id := range pos {
+			par, ok := trees[id].Parent()
+			if !ok {
+				roots = append(roots, id)
+			} else {
+				parentOf[id] = par
+				if par == id {
+					fail("self-parent", fmt.Sprintf("replica %d is its own parent", id))
+					return false
+				}
+				if _, known := trees[par]; !known {
+					fail("unknown-parent", fmt.Sprintf("replica %d has parent %d which is not a replica", id, par))
+					return false
+				}
 			}
 		}
+		if len(roots) != 1 {
+			fail("one-root", fmt.Sprintf("replicas without parent: %v", roots))
+			return false
+		}
+		root := roots[0]
+		for _, id := range pos {
+			if trees[id].Root() != root {
+				fail("root-agree", fmt.Sprintf("replica %d says root=%d, parentless replica is %d", id, trees[id].Root(), root))
+				return false
+			}
+			if trees[id].IsRoot(id) != (id == root) {
+				fail("isroot", fmt.Sprintf("replica %d IsRoot(self)=%v", id, trees[id].IsRoot(id)))
+				return false
+			}
+		}
+		// children, from every vantage point
+		childrenOf := map[hotstuff.ID][]hotstuff.ID{}
+		for _, id := range pos {
+			own := trees[id].ReplicaChildren()
+			childrenOf[id] = own
+			if len(own) > bf {
+				fail("fanout", fmt.Sprintf("replica %d has %d children > bf", id, len(own)))
+				return false
+			}
+			for _, v := range pos {
+				if idsStr(trees[v].ChildrenOf(id)) != idsStr(own) {
+					fail("children-vantage", fmt.Sprintf("children of %d: own view %v, view of %d: %v", id, own, v, trees[v].ChildrenOf(id)))
+					return false
+				}
+			}
+		}
+		listed := map[hotstuff.ID]int{}
+		for par, ch := range childrenOf {
+			seen := map[hotstuff.ID]bool{}
+			for _, c := range ch {
+				if seen[c] {
+					fail("child-dup", fmt.Sprintf("%d lists child %d twice", par, c))
+					return false
+				}
+				seen[c] = true
+				listed[c]++
+				if parentOf[c] != par {
+					fail("child-parent", fmt.Sprintf("%d lists %d as child but %d's parent is %d", par, c, c, parentOf[c]))
+					return false
+				}
+			}
+		}
+		for _, id := range pos {
+			if id == root {
+				if listed[id] != 0 {
+					fail("root-listed", fmt.Sprintf("root %d is listed as a child", id))
+					return false
+				}
+				continue
+			}
+			if listed[id] != 1 {
+				fail("listed-once", fmt.Sprintf("replica %d is listed as child %d times", id, listed[id]))
+				return false
+			}
+		}
+		// descendants by closure; depth
+		depth := map[hotstuff.ID]int{root: 0}
+		var desc func(id hotstuff.ID) []hotstuff.ID
+		desc = func(id hotstuff.ID) []hotstuff.ID {
+			var out []hotstuff.ID
+			for _, c := range childrenOf[id] {
+				depth[c] = depth[id] + 1
+				out = append(out, c)
+				out = append(out, desc(c)...)
+			}
+			return out
+		}
+		all := desc(root)
+		if len(all) != n-1 {
+			fail("reach", fmt.Sprintf("root reaches %d replicas, expected %d", len(all), n-1))
+			return false
+		}
+		maxDepth := 0
+		for _, d := range depth {
+			if d > maxDepth {
+				maxDepth = d
+			}
+		}
+		for _, id := range pos {
+			t := trees[id]
+			st := t.SubTree()
+			if idsStr(st) != idsStr(desc(id)) {
+				fail("subtree", fmt.Sprintf("SubTree of %d = %v, descendants %v", id, st, desc(id)))
+				return false
+			}
+			seen := map[hotstuff.ID]bool{}
+			for _, x := range st {
+				if seen[x] {
+					fail("subtree-dup", fmt.Sprintf("SubTree of %d lists %d twice", id, x))
+					return false
+				}
+				seen[x] = true
+			}
+			peers := t.PeersOf()
+			if id == root {
+				if len(peers) != 0 {
+					fail("peers-root", fmt.Sprintf("root has peers %v", peers))
+					return false
+				}
+			} else if idsStr(peers) != idsStr(childrenOf[parentOf[id]]) {
+				fail("peers", fmt.Sprintf("PeersOf %d = %v, siblings %v", id, peers, childrenOf[parentOf[id]]))
+				return false
+			}
+			if t.TreeHeight() != maxDepth+1 {
+				fail("height", fmt.Sprintf("TreeHeight()=%d at %d but deepest replica is at depth %d", t.TreeHeight(), id, maxDepth))
+				return false
+			}
+			if t.ReplicaHeight() != t.TreeHeight()-depth[id] {
+				fail("replica-height", fmt.Sprintf("ReplicaHeight of %d = %d, tree height %d, depth %d", id, t.ReplicaHeight(), t.TreeHeight(), depth[id]))
+				return false
+			}
+		}
+		// dissemination / aggregation simulation over what replicas report
+		recv := map[hotstuff.ID]int{root: 1}
+		queue := []hotstuff.ID{root}
+		for len(queue) > 0 {
+			x := queue[0]
+			queue = queue[1:]
+			for _, c := range trees[x].ReplicaChildren() {
+				recv[c]++
+				queue = append(queue, c)
+			}
+		}
+		for _, id := range pos {
+			if recv[id] != 1 {
+				fail("disseminate", fmt.Sprintf("replica %d receives the proposal %d times", id, recv[id]))
+				return false
+			}
+			// vote path up must reach the root without cycles
+			x, steps := id, 0
+			for x != root {
+				par, ok := trees[x].Parent()
+				if !ok || steps > n {
+					fail("vote-path", fmt.Sprintf("vote of %d does not reach the root", id))
+					return false
+				}
+				x = par
+				steps++
+			}
+			if steps != depth[id] {
+				fail("vote-path-len", fmt.Sprintf("vote path of %d has %d hops, depth %d", id, steps, depth[id]))
+				return false
+			}
+		}
+		// tree leader = root from every vantage point
+		for _, id := range pos[:min(len(pos), 3)] {
+			cfg := core.NewRuntimeConfig(id, nil, core.WithKauriTree(trees[id]))
+			if l := leaderrotation.NewTreeBased(cfg).GetLeader(hotstuff.View(id) * 7); l != root {
+				fail("tree-leader", fmt.Sprintf("tree leader at %d = %d, root %d", id, l, root))
+				return false
+			}
+		}
+		return true
 	}
-	if len(roots) != 1 {
-		fail("one-root", fmt.Sprintf("replicas without parent: %v", roots))
+	if !once() {
 		return
 	}
-	root := roots[0]
-	for _, id := range pos {
-		if trees[id].Root() != root {
-			fail("root-agree", fmt.Sprintf("replica %d says root=%d, parentless replica is %d", id, trees[id].Root(), root))
-			return
-		}
-		if trees[id].IsRoot(id) != (id == root) {
-			fail("isroot", fmt.Sprintf("replica %d IsRoot(self)=%v", id, trees[id].IsRoot(id)))
-			return
-		}
-	}
-	// children, from every vantage point
-	childrenOf := map[hotstuff.ID][]hotstuff.ID{}
-	for _, id := range pos {
-		own := trees[id].ReplicaChildren()
-		childrenOf[id] = own
-		if len(own) > bf {
-			fail("fanout", fmt.Sprintf("replica %d has %d children > bf", id, len(own)))
-			return
-		}
-		for _, v := range pos {
-			if idsStr(trees[v].ChildrenOf(id)) != idsStr(own) {
-				fail("children-vantage", fmt.Sprintf("children of %d: own view %v, view of %d: %v", id, own, v, trees[v].ChildrenOf(id)))
-				return
-			}
+	rng := vbase.NewRng(1, "c17-queries", bf, fmt.Sprint(pos))
+	for k := 0; k < 4*n; k++ {
+		t := trees[pos[rng.Intn(n)]]
+		switch rng.Intn(9) {
+		case 0:
+			t.PeersOf()
+		case 1:
+			t.SubTree()
+		case 2:
+			t.ReplicaChildren()
+		case 3:
+			t.ChildrenOf(pos[rng.Intn(n)])
+		case 4:
+			t.Parent()
+		case 5:
+			t.ReplicaHeight()
+		case 6:
+			t.TreeHeight()
+		case 7:
+			t.IsRoot(pos[rng.Intn(n)])
+		case 8:
+			t.Root()
 		}
 	}
-	listed := map[hotstuff.ID]int{}
-	for par, ch := range childrenOf {
-		seen := map[hotstuff.ID]bool{}
-		for _, c := range ch {
-			if seen[c] {
-				fail("child-dup", fmt.Sprintf("%d lists child %d twice", par, c))
-				return
-			}
-			seen[c] = true
-			listed[c]++
-			if parentOf[c] != par {
-				fail("child-parent", fmt.Sprintf("%d lists %d as child but %d's parent is %d", par, c, c, parentOf[c]))
-				return
-			}
-		}
-	}
-	for _, id := range pos {
-		if id == root {
-			if listed[id] != 0 {
-				fail("root-listed", fmt.Sprintf("root %d is listed as a child", id))
-				return
-			}
-			continue
-		}
-		if listed[id] != 1 {
-			fail("listed-once", fmt.Sprintf("replica %d is listed as child %d times", id, listed[id]))
-			return
-		}
-	}
-	// descendants by closure; depth
-	depth := map[hotstuff.ID]int{root: 0}
-	var desc func(id hotstuff.ID) []hotstuff.ID
-	desc = func(id hotstuff.ID) []hotstuff.ID {
-		var out []hotstuff.ID
-		for _, c := range childrenOf[id] {
-			depth[c] = depth[id] + 1
-			out = append(out, c)
-			out = append(out, desc(c)...)
-		}
-		return out
-	}
-	all := desc(root)
-	if len(all) != n-1 {
-		fail("reach", fmt.Sprintf("root reaches %d replicas, expected %d", len(all), n-1))
-		return
-	}
-	maxDepth := 0
-	for _, d := range depth {
-		if d > maxDepth {
-			maxDepth = d
-		}
-	}
-	for _, id := range pos {
-		t := trees[id]
-		st := t.SubTree()
-		if idsStr(st) != idsStr(desc(id)) {
-			fail("subtree", fmt.Sprintf("SubTree of %d = %v, descendants %v", id, st, desc(id)))
-			return
-		}
-		seen := map[hotstuff.ID]bool{}
-		for _, x := range st {
-			if seen[x] {
-				fail("subtree-dup", fmt.Sprintf("SubTree of %d lists %d twice", id, x))
-				return
-			}
-			seen[x] = true
-		}
-		peers := t.PeersOf()
-		if id == root {
-			if len(peers) != 0 {
-				fail("peers-root", fmt.Sprintf("root has peers %v", peers))
-				return
-			}
-		} else if idsStr(peers) != idsStr(childrenOf[parentOf[id]]) {
-			fail("peers", fmt.Sprintf("PeersOf %d = %v, siblings %v", id, peers, childrenOf[parentOf[id]]))
-			return
-		}
-		if t.TreeHeight() != maxDepth+1 {
-			fail("height", fmt.Sprintf("TreeHeight()=%d at %d but deepest replica is at depth %d", t.TreeHeight(), id, maxDepth))
-			return
-		}
-		if t.ReplicaHeight() != t.TreeHeight()-depth[id] {
-			fail("replica-height", fmt.Sprintf("ReplicaHeight of %d = %d, tree height %d, depth %d", id, t.ReplicaHeight(), t.TreeHeight(), depth[id]))
-			return
-		}
-	}
-	// dissemination / aggregation simulation over what replicas report
-	recv := map[hotstuff.ID]int{root: 1}
-	queue := []hotstuff.ID{root}
-	for len(queue) > 0 {
-		x := queue[0]
-		queue = queue[1:]
-		for _, c := range trees[x].ReplicaChildren() {
-			recv[c]++
-			queue = append(queue, c)
-		}
-	}
-	for _, id := range pos {
-		if recv[id] != 1 {
-			fail("disseminate", fmt.Sprintf("replica %d receives the proposal %d times", id, recv[id]))
-			return
-		}
-		// vote path up must reach the root without cycles
-		x, steps := id, 0
-		for x != root {
-			par, ok := trees[x].Parent()
-			if !ok || steps > n {
-				fail("vote-path", fmt.Sprintf("vote of %d does not reach the root", id))
-				return
-			}
-			x = par
-			steps++
-		}
-		if steps != depth[id] {
-			fail("vote-path-len", fmt.Sprintf("vote path of %d has %d hops, depth %d", id, steps, depth[id]))
-			return
-		}
-	}
-	// tree leader = root from every vantage point
-	for _, id := range pos[:min(len(pos), 3)] {
-		cfg := core.NewRuntimeConfig(id, nil, core.WithKauriTree(trees[id]))
-		if l := leaderrotation.NewTreeBased(cfg).GetLeader(hotstuff.View(id) * 7); l != root {
-			fail("tree-leader", fmt.Sprintf("tree leader at %d = %d, root %d", id, l, root))
-			return
-		}
-	}
+	r.Obs("query_storm_queries", int64(4*n))
+	once()
 }
 
 func c17Tree(p vbase.Params, r *vbase.Result) {
 	r.Rule = "n=1..40 x bf=2..6 x position assignments (all permutations for n<=6 incl. non-contiguous id sets, seeded random permutations otherwise); " +
 		"one tree.Tree per replica from the same assignment, assembled from Parent/Children reports and checked for single-rooted consistency, subtree=descendants, peers, heights, " +
-		"dissemination and vote paths; non-trivial: non-identity permutation or incomplete last level; distinct: (bf, positions)"
+		"dissemination and vote paths; the whole check repeated on the same instances after 4n queries in a PRNG-chosen order (queries are pure); non-trivial: non-identity permutation or incomplete last level; distinct: (bf, positions)"
 	idx := 0
 	identity := func(pos []hotstuff.ID) bool {
 		for i, id := range pos {
